@@ -117,6 +117,7 @@ type TxRec struct {
 	Inc      int
 	Dispatch int64 // tick at which the submission was dispatched by the coroutine
 	Tick     int64 // tick at which it committed
+	HeldFor  int   // number of kernel ticks between dispatch and execution
 	Batch    int   // id of the SQL transaction (batch) it was executed in
 	Cmds     []*t_aio.Command
 	Results  []*t_aio.Result
@@ -167,6 +168,7 @@ type Profile struct {
 	SendLose   int      // sender submission itself fails before/after with probability 1/SendLose
 	Crash      int      // the kernel crashes at a flush position with probability 1/Crash
 	MaxCrashes int      // at most this many crashes per case (default 2)
+	NoShadow   bool     // sequential re-runner: no shadow store, no trace (transactions executed one at a time)
 	Permute    bool     // permute pending submissions
 	ApiSize    int      // api queue size (default 1000)
 	Targets    map[string]*receiver.Recv
@@ -313,6 +315,7 @@ type pend struct {
 	sqe      *SQE
 	dispatch int64
 	inc      int
+	tickNo   int
 }
 
 var simCounter int
@@ -323,17 +326,23 @@ func New(d D, cfg *system.Config, prof Profile, dir string) *Sim {
 		prof.ApiSize = 1000
 	}
 	s := &Sim{D: d, Cfg: cfg, Prof: prof, Dir: dir, Path: filepath.Join(dir, fmt.Sprintf("p%d.db", simCounter)), Now: Base, BgRuns: map[string]int{}, routerFails: map[string]int{}}
-	shadowPath := filepath.Join(dir, fmt.Sprintf("s%d.db", simCounter))
-	s.shadow = NewStore(shadowPath)
 	var err error
-	if s.shadowDb, err = sql.Open("sqlite3", shadowPath); err != nil {
-		panic(err)
+	if !prof.NoShadow {
+		shadowPath := filepath.Join(dir, fmt.Sprintf("s%d.db", simCounter))
+		s.shadow = NewStore(shadowPath)
+		if s.shadowDb, err = sql.Open("sqlite3", shadowPath); err != nil {
+			panic(err)
+		}
 	}
 	s.boot()
 	if s.obs, err = sql.Open("sqlite3", s.Path); err != nil {
 		panic(err)
 	}
-	s.Snaps = []core.Snapshot{core.Snap(s.shadowDb)}
+	if prof.NoShadow {
+		s.Snaps = []core.Snapshot{{}}
+	} else {
+		s.Snaps = []core.Snapshot{core.Snap(s.shadowDb)}
+	}
 	return s
 }
 
@@ -364,8 +373,10 @@ func (s *Sim) Close() {
 	if s.K != nil {
 		_ = s.K.Store.Stop()
 	}
-	s.shadowDb.Close()
-	_ = s.shadow.Stop()
+	if s.shadow != nil {
+		s.shadowDb.Close()
+		_ = s.shadow.Stop()
+	}
 	for _, p := range []string{s.Path, strings.Replace(s.Path, "/p", "/s", 1)} {
 		os.Remove(p)
 		os.Remove(p + "-journal")
@@ -376,6 +387,9 @@ func (s *Sim) event(what string) int {
 	s.seq++
 	return s.seq
 }
+
+// Obs is the observer connection on the primary database.
+func (s *Sim) Obs() *sql.DB { return s.obs }
 
 // CurSnap is the index of the latest committed snapshot.
 func (s *Sim) CurSnap() int { return len(s.Snaps) - 1 }
@@ -482,7 +496,7 @@ func (s *Sim) Dispatch(sub *t_aio.Submission, cb func(*t_aio.Completion, error))
 	s.EnqueueSQE(&SQE{Id: sub.Tags["id"], Submission: sub, Callback: cb})
 }
 func (s *Sim) EnqueueSQE(sqe *SQE) {
-	s.pending = append(s.pending, &pend{sqe: sqe, dispatch: s.Now, inc: s.Inc})
+	s.pending = append(s.pending, &pend{sqe: sqe, dispatch: s.Now, inc: s.Inc, tickNo: len(s.Ticks)})
 }
 func (s *Sim) EnqueueCQE(c *CQE) { s.cqes = append(s.cqes, c) }
 func (s *Sim) DequeueCQE(n int) []*CQE {
@@ -523,6 +537,13 @@ func (s *Sim) Flush(t int64) {
 		if len(batch) == 0 {
 			return
 		}
+		if s.Prof.NoShadow {
+			for _, x := range batch {
+				s.cqes = append(s.cqes, s.K.Store.Process([]*SQE{x.sqe})...)
+			}
+			batch = nil
+			return
+		}
 		storeTouched = true
 		s.batch++
 		sqes := make([]*SQE, len(batch))
@@ -561,7 +582,7 @@ func (s *Sim) Flush(t int64) {
 				s.Problems = append(s.Problems, fmt.Sprintf("C16 batch vs single execution disagree on results for %s [%s]", x.sqe.Id, cmdNames(tx.Commands)))
 			}
 			rec := &TxRec{Seq: s.event("commit"), Idx: len(s.Txs), ReqId: s.instId(x.sqe.Id), Name: x.sqe.Submission.Tags["name"], Bg: isBgId(x.sqe.Id), Inc: s.Inc,
-				Dispatch: x.dispatch, Tick: t, Batch: s.batch, Cmds: tx.Commands, ReadOnly: ro, Pre: pre, Post: post}
+				Dispatch: x.dispatch, Tick: t, HeldFor: len(s.Ticks) - x.tickNo, Batch: s.batch, Cmds: tx.Commands, ReadOnly: ro, Pre: pre, Post: post}
 			if cqes[i].Error == nil {
 				rec.Results = cqes[i].Completion.Store.Results
 			}
